@@ -158,3 +158,33 @@ async fn pending_fixpoint_body() {
     expect("after a fourth update that recorded the file as DELETED, then: it is re-created empty", report().await, vec!["d/added in c2.txt"], &mut bad);
     println!("VF-SUMMARY test=pending_fixpoint checked={} nontrivial={} bad={}", checked, checked, bad);
 }
+
+// C19: the id recorded for a reference is what `git rev-parse <reference>` prints when it SUCCEEDS; a reference that does not resolve - an
+// unborn HEAD, for which git echoes the word back and exits non-zero; a name that does not exist - is an error, never an id
+#[test]
+fn vf_rev_parse() {
+    let rt = tokio::runtime::Builder::new_multi_thread().worker_threads(2).enable_all().build().unwrap();
+    let (mut checked, mut bad) = (0u64, 0u64);
+    let td = tempfile::tempdir().unwrap();
+    let dir = td.path().to_path_buf();
+    g(&dir, &["init", "-q", "."]); g(&dir, &["config", "user.email", "a@b"]); g(&dir, &["config", "user.name", "n"]);
+    for reference in ["HEAD", "nosuchref"] {
+        checked += 1;
+        match rt.block_on(git_cmd_rev_parse("git", &dir, reference)) {
+            Ok(id) => { bad += 1; println!("VF-FAIL `git rev-parse {}` in a repository without any commit :: returned the id {:?}; the reference does not resolve (git exits non-zero): this must be an error, not a checkpoint id (C19)", reference, id); }
+            Err(_) => {}
+        }
+    }
+    write(&dir, "a/one.txt", "one\n"); g(&dir, &["add", "-A"]); g(&dir, &["commit", "-q", "-m", "c1"]);
+    let want = String::from_utf8(g(&dir, &["rev-parse", "HEAD"])).unwrap().trim().to_string();
+    for reference in ["HEAD", "nosuchref"] {
+        checked += 1;
+        match (reference, rt.block_on(git_cmd_rev_parse("git", &dir, reference))) {
+            ("HEAD", Ok(id)) if id == want => {}
+            ("HEAD", r) => { bad += 1; println!("VF-FAIL `git rev-parse HEAD` after one commit :: {:?}, HEAD resolves to {} (C19)", r.map_err(|e| e.to_string()), want); }
+            (_, Ok(id)) => { bad += 1; println!("VF-FAIL `git rev-parse nosuchref` :: returned the id {:?} for a reference that does not exist (C19)", id); }
+            (_, Err(_)) => {}
+        }
+    }
+    println!("VF-SUMMARY test=rev_parse checked={} nontrivial={} bad={}", checked, checked, bad);
+}
